@@ -104,6 +104,8 @@ class SeqRef:
             return self.cond(c[1], T) and self.cond(c[2], T)
         if k == "or":
             return self.cond(c[1], T) or self.cond(c[2], T)
+        if k == "cite":
+            return self.cond(c[2], T) if self.cond(c[1], T) else self.cond(c[3], T)
         if k == "cmpsel":
             x, y = self.ev(c[2], T), self.ev(c[3], T)
             return x == y if self.cond(c[1], T) else x < y
